@@ -238,3 +238,94 @@ Proof.
     subst es. destruct (completed_view d acts) as [_ [_ Hc]]. intros s' n' t' f'. rewrite Hc. subst acts.
     destruct (S2 s' n' t' f') as [E|E]; rewrite E; apply untag_undeclare_prefix.
 Qed.
+
+(* ---------------------------------------------------------------- declare: old, new, or unassigned *)
+
+(* an action is tame for a tag key when, if it assigns that key at all, it assigns the final value *)
+Definition tame (fin : option str) (s n t f : str) (x : aact) : Prop :=
+  match x with
+  | ASetTag s' n' t' f' v' => (s', n', t', f') = (s, n, t, f) -> Some v' = fin
+  | _ => True
+  end.
+
+Lemma tame_step fin s n t f x b : tame fin s n t f x ->
+  a_tag (aapply x b) s n t f = a_tag b s n t f \/ a_tag (aapply x b) s n t f = None \/
+  a_tag (aapply x b) s n t f = fin.
+Proof.
+  intro H. rewrite a_tag_aapply. destruct x as [s' n' v' f' r|s' n' v' f'|s' n' t' f' v'|s' n' t' f'].
+  - left. reflexivity.
+  - destruct (_ && _); auto.
+  - destruct (mem_str s' (apath b)); cbn [andb]; [|left; reflexivity].
+    destruct (dkey_eqb (s, n, t, f) (s', n', t', f')) eqn:E; [|left; reflexivity].
+    apply dkey_eqb_eq in E. right. right. apply H. symmetry. exact E.
+  - destruct (dkey_eqb _ _); auto.
+Qed.
+
+Lemma tame_prefix fin s n t f acts : Forall (tame fin s n t f) acts -> forall a i,
+  a_tag (aapply_all (firstn i acts) a) s n t f = a_tag a s n t f \/
+  a_tag (aapply_all (firstn i acts) a) s n t f = None \/
+  a_tag (aapply_all (firstn i acts) a) s n t f = fin.
+Proof.
+  induction 1 as [|x acts Hx _ IH]; intros a i.
+  - rewrite firstn_nil. left. reflexivity.
+  - destruct i as [|i]; [left; reflexivity|]. cbn [firstn]. rewrite aapply_all_cons.
+    destruct (IH (aapply x a) i) as [E|[E|E]]; rewrite E; auto.
+    apply tame_step. exact Hx.
+Qed.
+
+Lemma declare_shape p a o n v dir table t acts : decide p a (Declare o n v dir table t) = Ok acts ->
+  Forall not_settag acts \/
+  exists tg x P, acts = P ++ [ASetTag tg n x (o_flavor o) v] /\ mem_str tg (apath a) = true /\
+    Forall (fun y => not_settag y \/ y = ASetTag tg n x (o_flavor o) v) P.
+Proof.
+  cbn [decide]. unfold declare_acts. destruct (declare_plan a o n v dir table t) as [pl|e] eqn:Ep; [|discriminate].
+  destruct (o_noaction o); [intro H; inversion H; left; constructor|].
+  destruct (declare_plan_target _ _ _ _ _ _ _ _ Ep) as [Hm _].
+  rewrite declare_finish_unfold. destruct (dp_tag pl) as [x|] eqn:Ex.
+  - cbv zeta. destruct (find_exact _ _ n v _) as [[s' r]|] eqn:Ef; [|discriminate].
+    intro H. inversion H. subst acts. right.
+    apply find_exact_some in Ef. destruct Ef as [Hin _].
+    assert (s' = dp_target pl) by (destruct Hin as [<-|[<-|[]]]; reflexivity). subst s'.
+    exists (dp_target pl), x, (declare_acts1 (o_flavor o) n v pl ++
+                               map (fun r0 => ADelTag r0 n x (o_flavor o))
+                                 (occurrences p (aapply_all (declare_acts1 (o_flavor o) n v pl) a) n x (o_flavor o))).
+    split; [rewrite <- app_assoc; reflexivity|]. split; [exact Hm|].
+    apply Forall_app. split.
+    + unfold declare_acts1. destruct (dp_write pl); [|constructor]. rewrite Ex.
+      constructor; [left; exact I|]. constructor; [right; reflexivity|constructor].
+    + apply Forall_forall. intros y Hy. apply in_map_iff in Hy. destruct Hy as [r0 [<- _]]. left. exact I.
+  - intro H. inversion H. left. unfold declare_acts1. destruct (dp_write pl); [|constructor]. rewrite Ex.
+    repeat constructor.
+Qed.
+
+Lemma not_settag_tame fin s n t f x : not_settag x -> tame fin s n t f x.
+Proof. destruct x; cbn; auto. contradiction. Qed.
+
+(* every tag assignment, at every crash point of every command: its old value, its new value, or unassigned *)
+Lemma crash_tag_three f d o es k d' : crash_point f d o es k d' ->
+  forall s n t fl, a_tag (view d') s n t fl = a_tag (view d) s n t fl \/
+                   a_tag (view d') s n t fl = a_tag (view (apply es d)) s n t fl \/
+                   a_tag (view d') s n t fl = None.
+Proof.
+  intros C s n t fl. destruct (is_declare o) eqn:Hd.
+  2:{ destruct (crash_not_declare _ _ _ _ _ _ C Hd) as [_ S2]. destruct (S2 s n t fl); auto. }
+  destruct (crash_between _ _ _ _ _ _ C) as [acts [i [Hdec [_ [_ S2]]]]].
+  assert (Hes : es = compile_all d acts).
+  { destruct C as [_ _ He _]. unfold effects, effects_gen in He. rewrite Hdec in He. inversion He. reflexivity. }
+  subst es. destruct (completed_view d acts) as [_ [_ Hc]]. rewrite Hc.
+  set (fin := a_tag (aapply_all acts (view d)) s n t fl).
+  assert (T : Forall (tame fin s n t fl) acts).
+  { destruct o as [o n0 v dir table t0| | | | | ]; try discriminate.
+    destruct (declare_shape _ _ _ _ _ _ _ _ _ Hdec) as [Hns|[tg [x [P [E [Hm HP]]]]]].
+    - eapply Forall_impl; [|exact Hns]. intros y. apply not_settag_tame.
+    - assert (Hfin : forall y, y = ASetTag tg n0 x (o_flavor o) v -> tame fin s n t fl y).
+      { intros y ->. cbn. intro K. unfold fin. rewrite E, aapply_all_app.
+        cbn [aapply_all fold_left]. rewrite a_tag_aapply, apath_aapply_all, Hm. cbn [andb].
+        rewrite <- K, dkey_eqb_refl. reflexivity. }
+      rewrite E. apply Forall_app. split.
+      + eapply Forall_impl; [|exact HP]. intros y [Hy|Hy]; [apply not_settag_tame; exact Hy|apply Hfin; exact Hy].
+      + constructor; [apply Hfin; reflexivity|constructor]. }
+  destruct (S2 s n t fl) as [E|E]; rewrite E.
+  - destruct (tame_prefix fin s n t fl acts T (view d) i) as [K|[K|K]]; auto.
+  - destruct (tame_prefix fin s n t fl acts T (view d) (S i)) as [K|[K|K]]; auto.
+Qed.
